@@ -527,7 +527,7 @@ Section Num.
   (* ---- what each wrapper class's unwrap() returns, given children without wrappers ---- *)
   Definition wapply (k : wlabel) (l : list vtree) : option vtree :=
     match snd k with
-    | NonTrainable =>   (* stop_gradient on the array-likes: the value is unchanged *)
+    | NonTrainable =>   (* lax.stop_gradient on the arrays of the subtree: the value is unchanged *)
         match l with [x] => Some x | _ => None end
     | Where =>
         match l with
